@@ -74,6 +74,8 @@ impl Stats {
         }
         self.add("sim_steps", bladeink::verif::steps());
         self.add("sim_clock_reads", crate::seams::clock_total_reads());
+        // virtual time this case thread's clock has covered (it starts at 1 s)
+        self.add("sim_time_us", crate::seams::clock_now_ns().saturating_sub(1_000_000_000) / 1000);
     }
 }
 
@@ -897,6 +899,7 @@ pub fn write_evidence(def: &'static PropertyDef, tier: Tier, seed: u64, br: &Bat
                       "derivation": "per-run seed = mix(VERIF_SEED, property id, run index) -> xoshiro256**"},
             "sim_steps": s.get("sim_steps"),
             "sim_clock_reads": s.get("sim_clock_reads"),
+            "sim_time_ms": s.get("sim_time_us") / 1000,
             "faults": faults,
             "probes": probes,
             "distinct": distinct,
